@@ -28,6 +28,7 @@ type opT struct {
 	Level int    `json:"level,omitempty"`
 	Line  []byte `json:"-"`
 	Text  string `json:"line,omitempty"`
+	Len   int    `json:"line_bytes,omitempty"` // filled for long lines only (readability of replays)
 }
 
 type caseT struct {
@@ -131,6 +132,12 @@ func doOp(w *zerolog.TriggerLevelWriter, o opT) (res obsT) {
 	return obsT{Ret: "ok", N: n}
 }
 
+// closeQuietly: the driver's own clean-up Close (not part of the history) must not crash the driver.
+func closeQuietly(w *zerolog.TriggerLevelWriter) {
+	defer func() { recover() }()
+	w.Close()
+}
+
 // runCase runs the history on the real TriggerLevelWriter.
 func runCase(cs *caseT) []obsT {
 	r := &recorder{script: cs.Script}
@@ -142,7 +149,7 @@ func runCase(cs *caseT) []obsT {
 		res.Calls = append([]dcallT{}, r.calls[before:]...)
 		out[i] = res
 	}
-	w.Close() // hand the buffer back to the pool: the next case reuses it
+	closeQuietly(w) // hand the buffer back to the pool: the next case reuses it
 	return out
 }
 
@@ -220,6 +227,9 @@ func caseTerm(cs *caseT, obs []obsT) string {
 func caseJSON(cs *caseT, obs []obsT) map[string]interface{} {
 	for i := range cs.Ops {
 		cs.Ops[i].Text = string(cs.Ops[i].Line)
+		if len(cs.Ops[i].Line) > 200 {
+			cs.Ops[i].Len = len(cs.Ops[i].Line)
+		}
 	}
 	for i := range obs {
 		for j := range obs[i].Calls {
@@ -302,7 +312,7 @@ func genHistory(r *Rng, n int, maxLine int) []opT {
 // ---------------------------------------------------------------- driver
 
 func runC15(c *Ctx) {
-	c.Res.Rule = "a case is (ConditionalLevel, TriggerLevel, destination kind LevelWriter|io.Writer, history of WriteLevel(level, line)/Trigger/Close); observed = per operation the destination calls made during it (level, bytes) and its result. Bounded-exhaustive: every history of <=4 operations over {W at 7 levels, Trigger, Close} for all 49 threshold pairs from {-128,-1,0,3,9,11,127} is run and monitored (the model evaluates all histories of <=2 operations, a fixed 1/4 of those of 3 and 1/32 of those of 4; thorough: all, and length 5 for 4 pairs); then seeded random histories (<=40 operations, thorough <=80, random int8 levels != 10, random line bytes without interior newline, long lines, both destination kinds), several writers alive at once sharing the buffer pool, a malformed stream for the correspondence only (level 10, interior newline, unterminated line, failing destination), and concurrent runs. non-trivial = something was held and later released or discarded, and something passed through; distinct by case text"
+	c.Res.Rule = "a case is (ConditionalLevel, TriggerLevel, destination kind LevelWriter|io.Writer, history of WriteLevel(level, line)/Trigger/Close); observed = per operation the destination calls made during it (level, bytes) and its result. Bounded-exhaustive: every history of <=4 operations over {W at 7 levels, Trigger, Close} for all 49 threshold pairs from {-128,-1,0,3,9,11,127} is run and monitored (the model evaluates all histories of <=2 operations, a fixed 1/4 of those of 3 and 1/32 of those of 4; thorough: all, and length 5 for 4 pairs); then seeded random histories (<=40 operations, thorough <=80, random int8 levels != 10, random line bytes without interior newline, long lines, both destination kinds), a directed long-line sweep (lines of 2^8, 2^15, 2^16, 2^17 -4..+2, 70000, 100000, 3*2^16, 2^18, 2^20 (+1) bytes and the buffer reuse limit -2..+1, each held first / in the middle / last, as the triggering line, passing through while others are held, after the trigger and before a Close; total held bytes at the reuse limit -3..+3 followed by a writer that draws the pooled buffer; random histories mixing long and short lines; monitored, the model evaluates those with lines <= 4100 bytes), several writers alive at once sharing the buffer pool, a malformed stream for the correspondence only (level 10, interior newline, unterminated line, failing destination), and concurrent runs. non-trivial = something was held and later released or discarded, and something passed through; distinct by case text"
 	c.OpenShards("From Verif Require Import Base.Prelude Misc.Level Lts.Trigger Harness.C15H.\nOpen Scope Z_scope.",
 		"(tcfg * script * list op) * list (list dcall * mret)", "mismatches c15_run c15_eqb", 1000)
 
@@ -497,7 +507,7 @@ func runC15(c *Ctx) {
 			obss[k] = append(obss[k], res)
 		}
 		for k := range css {
-			ws[k].Close()
+			closeQuietly(ws[k])
 			if len(css[k].Ops) == 0 {
 				continue
 			}
@@ -508,6 +518,11 @@ func runC15(c *Ctx) {
 			c.Hist("group", "shared-pool")
 		}
 	}
+
+	// 5c. long lines (long.go): lengths at and around 2^8, 2^15, 2^16, 2^17, 2^18, 2^20 and the reuse limit
+	runLongLines(c)
+	c.OpenShards("From Verif Require Import Base.Prelude Misc.Level Lts.Trigger Harness.C15H.\nOpen Scope Z_scope.",
+		"(tcfg * script * list op) * list (list dcall * mret)", "mismatches c15_run c15_eqb", 100)
 
 	// 6. malformed stream: outside the property's quantifier, correspondence only (the model
 	// is the code as it is: level 10, interior newlines, unterminated lines, failing destination)
